@@ -729,6 +729,8 @@ def install_iters(eng):
               "<core::iter::Enumerate<I> as core::iter::Iterator>::next", "<core::iter::Take<I> as core::iter::Iterator>::next"):
         M[p] = m_iter_next
     M["core::iter::Iterator::filter"] = m_iter_filter
+    M["core::str::<impl str>::split"] = m_str_split_char
+    M["<core::str::Split<'a, P> as core::iter::Iterator>::next"] = m_iter_next
     M["core::iter::Iterator::for_each"] = m_iter_for_each
     M["core::iter::Iterator::try_for_each"] = m_iter_try_for_each
     M["<core::iter::Filter<I, P> as core::iter::Iterator>::next"] = m_filter_next
@@ -814,6 +816,10 @@ def _advance(eng, st, it, item_tid):
                     for s3 in fs:
                         work.append((s3, ni, k + 1))
         return out
+    if it.ikind == "vals":
+        if it.n < len(it.a):
+            return [(st, IterV("vals", a=it.a, n=it.n + 1), it.a[it.n])]
+        return [(st, it, None)]
     if it.ikind == "slice":
         if it.n < it.b:
             arr = _arr_of(eng, st, it.a)
@@ -962,6 +968,16 @@ def _iter_search(eng, st, c, args, dest_tid, t, mode):
 
 
 RANGE_NEXT = "core::iter::range::<impl core::iter::Iterator for core::ops::Range<A>>::next"
+
+
+def m_str_split_char(eng, st, c, args, dest_tid, t):
+    """s.split(ch) for a concrete string and a constant char pattern: the pieces, in order"""
+    sv = _str_of(eng, st, args[0])
+    pat = args[1]
+    if sv is None or sv.s is None or not isinstance(pat, Int) or not pat.lin.is_const():
+        return NotImplemented
+    pieces = sv.s.split(chr(pat.lin.k))
+    return [(st, IterV("vals", a=[Ref(val=Str(p_)) for p_ in pieces], n=0))]
 
 
 def m_iter_filter(eng, st, c, args, dest_tid, t):
